@@ -1367,19 +1367,12 @@ def run(chk: Check):
             pred = 'unexpected exception: ' + r['status']
         if pred:
             sig = known_signature(c, r, pred)
-            if sig is None and (c.get('cls') == 'analyze' or c.get('wk') == 0) and c['kind'] == 'f':
-                xs = exact_inputs(c)
-                if all(isinstance(x, str) or x == 0 for x in xs) and any(x in ('inf', '-inf') for x in xs):
-                    sig = 'S-C02d'
             if sig == 'S-C02b':
                 chk.known('S-C02b', 'MGHImage writes float/large-int data to an integer type by silent round-and-clip '
                                     '(no scaling fields, no refusal): 1e6 -> 32767, +-inf -> type limits')
             elif sig == 'S-C02c':
                 chk.known('S-C02c', 'stored float32 slope is subnormal: relative rounding error of the slope is large, '
                                     'scaled values overrun the integer range and are clipped; reload error >> step/2')
-            elif sig == 'S-C02d':
-                chk.known('S-C02d', 'plain ArrayWriter (Analyze, no scaling): float data whose finite values are all 0 '
-                                    'plus +-inf are written without thresholds: +-inf -> integer type limits instead of 0 or a refusal')
             else:
                 chk.violation('property_violation', case=case_desc(c), predicate=pred,
                               impl_output={k: (v if k != 'back' else back_text(v)) for k, v in r.items()},
